@@ -86,6 +86,7 @@ def parse_fields(line, keys):
 REFK = ("na", "alpha", "res", "chosen", "feasible", "x", "H1", "residual")
 OUTK = ("ret", "x", "H1", "residual", "calcs", "consumed", "steps", "drift", "commons", "trace")
 
+SCHED_BATCH_SECONDS, SLOW_BATCHES = [], []
 def run_sched_cases(exe, lines, timeout_each=20.0, max_hangs=3):
     """runs case lines through `harness sched`; restarts after a process-ending failure (DEADLOCK etc.) or a hang.
     returns dict id -> {"ref":..., "out":..., "fail": str|None, "hang": bool}"""
@@ -94,13 +95,36 @@ def run_sched_cases(exe, lines, timeout_each=20.0, max_hangs=3):
     hangs = 0
     while todo and hangs < max_hangs:           # a tree that hangs is reported after a few timeouts, not after hundreds
         ids = [l.split()[1] for l in todo]
+        t0 = time.time(); slow = False
         try:
             p = subprocess.run([exe, "sched"], input="\n".join(todo) + "\n", stdout=subprocess.PIPE, stderr=subprocess.PIPE,
-                               text=True, timeout=max(30.0, timeout_each + 0.02 * len(todo)))
+                               text=True, timeout=max(float(os.environ.get("C12_BATCH_BUDGET","60")), timeout_each + 0.02 * len(todo)) if not os.environ.get("C12_BATCH_BUDGET") else float(os.environ["C12_BATCH_BUDGET"]))
             stdout, hung = p.stdout, False
         except subprocess.TimeoutExpired as e:
             stdout = e.stdout.decode() if isinstance(e.stdout, bytes) else (e.stdout or "")
             hung = True
+        SCHED_BATCH_SECONDS.append(round(time.time() - t0, 2))
+        if hung:
+            # the budget is for the whole batch: on a loaded machine a slow batch is not a hang. Run the first case without an
+            # outcome on its own, with a generous budget, before calling it one.
+            done = set()
+            for l in stdout.split("\n"):
+                if l.startswith("out ") or l.startswith("fail "):
+                    done.add(l.split()[1])
+            k0 = 0
+            while k0 < len(ids) and ids[k0] in done:
+                k0 += 1
+            if k0 < len(todo):
+                try:
+                    p1 = subprocess.run([exe, "sched"], input=todo[k0] + "\n", stdout=subprocess.PIPE, stderr=subprocess.PIPE,
+                                        text=True, timeout=3 * timeout_each)
+                    stdout += "\n" + p1.stdout
+                    if any(l.startswith(("out ", "fail ")) and l.split()[1] == ids[k0] for l in p1.stdout.split("\n")):
+                        hung = False          # it finishes on its own: the batch was merely slow; go on behind it
+                        slow = True
+                        SLOW_BATCHES.append(ids[k0])
+                except subprocess.TimeoutExpired:
+                    pass
         for l in stdout.split("\n"):
             if l.startswith("ref "):
                 cid = l.split()[1]; res.setdefault(cid, {"fail": None, "hang": False})["ref"] = parse_fields(l, REFK)
@@ -112,6 +136,9 @@ def run_sched_cases(exe, lines, timeout_each=20.0, max_hangs=3):
         k = 0
         while k < len(ids) and ids[k] in res and ("out" in res[ids[k]] or res[ids[k]]["fail"]):
             k += 1
+        if slow:
+            todo = todo[k:]
+            continue
         if k < len(todo):
             prev_failed = k > 0 and res[ids[k - 1]]["fail"] and "out" not in res[ids[k - 1]]
             if hung:
@@ -563,4 +590,6 @@ def run(info, out):
         "traces_validated_against_impl": cov.get("forced_schedules", 0),
         "input_distribution": {"configurations": dict(hist), "line_search_outcomes": dict(chosen_hist), "thread_counts_free": THREADS},
     })
+    cov["sched_batch_seconds_max"] = max(SCHED_BATCH_SECONDS) if SCHED_BATCH_SECONDS else 0
+    cov["sched_batches_slow_but_not_hung"] = len(SLOW_BATCHES)
     return cov
